@@ -72,10 +72,21 @@ Proof.
   - destruct t; try discriminate Hp; try discriminate Ht. cbn [adispatch] in E. unfold aret in E. injection E as <-. reflexivity.
 Qed.
 
+(* the checker stays on its line, further right or in place *)
+Lemma straight_stays_line f n arec t st st' :
+  straight_tok t = true -> adispatch f n arec (Some t) st = (Ok tt, st') ->
+  loc_line (loc (fst st')) = loc_line (loc (fst st)).
+Proof.
+  intros Ht E.
+  destruct (plain_head (Some t)) eqn:Hp.
+  - pose proof (aplp_dispatch f n arec (Some t) Hp st tt st' E) as (_ & _ & P3 & _). exact P3.
+  - destruct t; try discriminate Hp; try discriminate Ht. cbn [adispatch] in E. unfold aret in E. injection E as <-. reflexivity.
+Qed.
+
 Lemma statement_agrees_on_line fi fa n s sa acc :
   R s sa -> straight_line (cur_line s) = true ->
   match evaluate_statement fi n s, analyze_statement fa n (sa, acc) with
-  | (Ok _, s'), (Ok _, (sa', _)) => R s' sa' /\ cur_line s' = cur_line s
+  | (Ok _, s'), (Ok _, (sa', _)) => R s' sa' /\ cur_line s' = cur_line s /\ loc_line (loc s') = loc_line (loc s)
   | (Ok _, _), (Err _ _, _) => False
   | (Err e _, _), (Ok _, _) => benign e
   | _, _ => True
@@ -99,7 +110,8 @@ Proof.
   destruct (next_token s0) as [r s1] eqn:En0. destruct (next_token sa) as [r' sa1] eqn:Ena. cbn [fst snd] in *. subst r'.
   assert (HR1 : R s1 sa1) by (eapply R_same_rt; eassumption).
   destruct (nth_error (cur_line s0) (loc_idx (loc s0))) as [t|] eqn:Etok; injection Hn as Hr Hs1; subst r s1.
-  2:{ (* end of the line *) cbn [edispatch adispatch]. unfold ret, aret. split; [exact HR1|]. rewrite <- Hcl0. destruct s0; reflexivity. }
+  2:{ (* end of the line *) cbn [edispatch adispatch]. unfold ret, aret. split; [exact HR1|].
+      split; [rewrite <- Hcl0; destruct s0; reflexivity | rewrite <- T4; destruct s0; reflexivity]. }
   assert (Hcl1 : cur_line (advd s0) = cur_line s) by (rewrite <- Hcl0; destruct s0 as [? ? ? [? ?] ? ? ? ? ? ? ? ? ? ? ? ? ? ? ?]; reflexivity).
   assert (Htok : straight_tok t = true).
   { unfold straight_line in Hst. rewrite forallb_forall in Hst. apply Hst. rewrite <- Hcl0. eapply nth_error_In; eassumption. }
@@ -108,12 +120,15 @@ Proof.
   - pose proof (straight_statement_agrees fi fa (S n) (evaluate_statement fi (S n)) (analyze_statement fa (S n)) (Some t) Hh
                   (advd s0) sa1 acc HR1) as Hag.
     pose proof (straight_stays fa (S n) (analyze_statement fa (S n)) t (sa1, acc)) as Hstay.
+    pose proof (straight_stays_line fa (S n) (analyze_statement fa (S n)) t (sa1, acc)) as Hstayl.
     destruct (edispatch fi (S n) (evaluate_statement fi (S n)) (Some t) (advd s0)) as [[[]|e l|p| |] s2];
       destruct (adispatch fa (S n) (analyze_statement fa (S n)) (Some t) (sa1, acc)) as [[[]|e' l'|p'| |] [sa2 acc2]];
       try exact Hag; try exact I.
     destruct Hag as [_ HR2]. split; [exact HR2|].
-    rewrite (cur_line_C s2 sa2 (proj1 HR2)). specialize (Hstay (sa2, acc2) Htok eq_refl). cbn [fst] in Hstay.
-    rewrite Hstay. exact Hsa1.
+    specialize (Hstay (sa2, acc2) Htok eq_refl). specialize (Hstayl (sa2, acc2) Htok eq_refl). cbn [fst] in Hstay, Hstayl.
+    split; [rewrite (cur_line_C s2 sa2 (proj1 HR2)), Hstay; exact Hsa1|].
+    assert (E2 : loc s2 = loc sa2) by apply HR2. assert (E1 : loc (advd s0) = loc sa1) by apply HR1.
+    rewrite E2, Hstayl, <- E1, <- T4. destruct s0 as [? ? ? [? ?] ? ? ? ? ? ? ? ? ? ? ? ? ? ? ?]; reflexivity.
   - (* not the start of a statement: both tools answer SYNTAX ERROR *)
     destruct t; try discriminate Hh; try discriminate Htok; cbn [edispatch adispatch]; exact I.
 Qed.
@@ -146,7 +161,7 @@ Proof.
       unfold ret in Hh. injection Hh as _ <-. destruct s; reflexivity. }
     pose proof (statement_agrees_on_line fi fa 0 s1 p1 acc HR1 Hst1) as Hag. rewrite Hev in Hag.
     destruct (analyze_statement fa 0 (p1, acc)) as [[[]|e l|p| |] [sa2 acc2]]; try exact I; try contradiction.
-    destruct Hag as [HR2 Hcl]. apply (IH k sa2 acc2 HR2). rewrite Hcl. exact Hst1.
+    destruct Hag as (HR2 & Hcl & _). apply (IH k sa2 acc2 HR2). rewrite Hcl. exact Hst1.
 Qed.
 
 (* the same, read the other way round *)
@@ -195,4 +210,115 @@ Lemma turn_ok_statement_ok fi s s1 s' :
 Proof.
   intros Hh E. unfold run_next_statement in E. rewrite bind_modify, Safety.bind_run, Hh, Safety.bind_run in E.
   destruct (evaluate_statement fi 0 s1) as [[[]|e l|p| |] s2]; try discriminate E. exists s2. reflexivity.
+Qed.
+
+(* ---- the same over the host's turns ---- *)
+(* [HostLine fi s]: the host calls the interpreter turn after turn while statements remain on the current line, and
+   every one of these turns succeeds.  [on_line s s']: [s'] still stands on the line of [s] with a token under the cursor *)
+Definition on_line (s s' : interp) : Prop :=
+  loc_line (loc s') = loc_line (loc s) /\ nth_error (cur_line s') (loc_idx (loc s')) <> None.
+
+Inductive HostLine (fi : nat) : interp -> Prop :=
+| HL_done s s1 : has_next_token (set_state Running s) = (Ok false, s1) -> HostLine fi s
+| HL_turn s s' : run_next_statement fi s = (Ok tt, s') -> (on_line s s' -> HostLine fi s') -> HostLine fi s.
+
+Theorem host_line_complete fi fa : forall s, HostLine fi s ->
+  forall k m sa acc, R s sa -> straight_line (cur_line s) = true ->
+  match walk_line fa k m (sa, acc) with
+  | (Ok (Some _), _) => False
+  | _ => True
+  end.
+Proof.
+  intros s H. induction H as [s s1 Hh | s s' Erun Hnext IH]; intros k m sa acc HR Hst.
+  - destruct k as [|k]; [exact I|]. cbn [walk_line fst snd].
+    assert (HRr : R (set_state Running s) sa) by (apply (R_quiet s); try (destruct s; reflexivity); exact HR).
+    destruct (cp_has_next (set_state Running s) sa (proj1 HRr)) as (E & _). rewrite Hh in E. cbn [fst] in E.
+    destruct (has_next_token sa) as [r p1]. cbn [fst] in E. subst r. exact I.
+  - destruct k as [|k]; [exact I|]. cbn [walk_line fst snd].
+    set (sR := set_state Running s) in *.
+    assert (HRr : R sR sa) by (apply (R_quiet s); try (unfold sR; destruct s; reflexivity); exact HR).
+    assert (Hstr : straight_line (cur_line sR) = true) by (replace (cur_line sR) with (cur_line s) by (unfold sR; destruct s; reflexivity); exact Hst).
+    unfold run_next_statement in Erun. rewrite bind_modify, Safety.bind_run in Erun. fold sR in Erun.
+    destruct (cp_has_next sR sa (proj1 HRr)) as (E & HC1 & K1 & K2).
+    assert (Hb : snd (has_next_token sR) = bumped sR).
+    { unfold has_next_token. rewrite Safety.bind_run. destruct (peek_cases sR) as [[p Hp] | [Hp _]]; rewrite Hp; reflexivity. }
+    destruct (has_next_token sR) as [[[|]|e l|p| |] s1] eqn:Hh; try discriminate Erun; cbn [fst snd] in *.
+    2:{ destruct (has_next_token sa) as [r p1]. cbn [fst] in E. subst r. exact I. }
+    destruct (has_next_token sa) as [r p1]. cbn [fst snd] in *. subst r. subst s1.
+    assert (HR1 : R (bumped sR) p1) by (eapply R_same_rt; eassumption).
+    assert (Hst1 : straight_line (cur_line (bumped sR)) = true) by (replace (cur_line (bumped sR)) with (cur_line sR) by (destruct sR; reflexivity); exact Hstr).
+    rewrite Safety.bind_run in Erun.
+    pose proof (statement_agrees_on_line fi fa 0 (bumped sR) p1 acc HR1 Hst1) as Hag.
+    destruct (evaluate_statement fi 0 (bumped sR)) as [[[]|e l|p| |] s2] eqn:Hev; try discriminate Erun.
+    destruct (analyze_statement fa 0 (p1, acc)) as [[[]|e l|p| |] [sa2 acc2]]; try exact I; try contradiction.
+    destruct Hag as (HR2 & Hcl & Hll).
+    (* the rest of the turn: is anything left on the line? *)
+    rewrite Safety.bind_run in Erun.
+    assert (Hb2 : has_next_token s2 = (Panic PUnwrapLine, bumped s2) \/ (exists p, has_next_token s2 = (Panic p, bumped s2))
+                  \/ has_next_token s2 = (Ok (match nth_error (cur_line s2) (loc_idx (loc s2)) with Some _ => true | None => false end), bumped s2)).
+    { unfold has_next_token. rewrite Safety.bind_run. destruct (peek_cases s2) as [[p Hp] | [Hp _]]; rewrite Hp.
+      - right. left. exists p. reflexivity.
+      - right. right. unfold ret. destruct (nth_error (cur_line s2) (loc_idx (loc s2))); reflexivity. }
+    destruct Hb2 as [Hp | [[p Hp] | Hp]]; rewrite Hp in Erun; try discriminate Erun.
+    destruct (cp_has_next s2 sa2 (proj1 HR2)) as (E2 & _). rewrite Hp in E2. cbn [fst] in E2.
+    destruct (nth_error (cur_line s2) (loc_idx (loc s2))) as [t2|] eqn:Et2.
+    + (* more on the line: the next turn *)
+      unfold ret in Erun. injection Erun as <-.
+      apply (IH ltac:(split; [replace (loc_line (loc (bumped s2))) with (loc_line (loc s2)) by (destruct s2; reflexivity);
+                                rewrite Hll; unfold sR; destruct s; reflexivity
+                              | replace (cur_line (bumped s2)) with (cur_line s2) by (destruct s2; reflexivity);
+                                replace (loc_idx (loc (bumped s2))) with (loc_idx (loc s2)) by (destruct s2; reflexivity);
+                                rewrite Et2; discriminate]) k m sa2 acc2).
+      * apply (R_quiet s2); try (destruct s2; reflexivity). exact HR2.
+      * replace (cur_line (bumped s2)) with (cur_line s2) by (destruct s2; reflexivity). rewrite Hcl. exact Hst1.
+    + (* the line is exhausted: so it is for the checker *)
+      destruct k as [|k]; [exact I|]. cbn [walk_line fst snd].
+      destruct (has_next_token sa2) as [r p2]. cbn [fst] in E2. subst r. exact I.
+Qed.
+
+Corollary host_line_error_fails fi fa k m s sa acc msg st' :
+  R s sa -> straight_line (cur_line s) = true ->
+  walk_line fa k m (sa, acc) = (Ok (Some msg), st') -> ~ HostLine fi s.
+Proof.
+  intros HR Hst E Hrun. pose proof (host_line_complete fi fa s Hrun k m sa acc HR Hst) as H.
+  rewrite E in H. exact H.
+Qed.
+
+(* an executable form of [HostLine], for examples *)
+Definition opt_N_eqb (a b : option N) : bool :=
+  match a, b with Some x, Some y => N.eqb x y | None, None => true | _, _ => false end.
+Definition on_line_b (s s' : interp) : bool :=
+  opt_N_eqb (loc_line (loc s')) (loc_line (loc s))
+  && match nth_error (cur_line s') (loc_idx (loc s')) with Some _ => true | None => false end.
+
+Lemma on_line_b_complete s s' : on_line s s' -> on_line_b s s' = true.
+Proof.
+  intros [H1 H2]. unfold on_line_b. rewrite H1.
+  replace (opt_N_eqb (loc_line (loc s)) (loc_line (loc s))) with true
+    by (destruct (loc_line (loc s)); cbn; [rewrite N.eqb_refl|]; reflexivity).
+  destruct (nth_error (cur_line s') (loc_idx (loc s'))); [reflexivity | contradiction].
+Qed.
+
+Fixpoint host_run (k fi : nat) (s : interp) : bool :=
+  match k with
+  | O => false
+  | S k' =>
+      match has_next_token (set_state Running s) with
+      | (Ok false, _) => true
+      | (Ok true, _) =>
+          match run_next_statement fi s with
+          | (Ok _, s') => if on_line_b s s' then host_run k' fi s' else true
+          | _ => false
+          end
+      | _ => false
+      end
+  end.
+
+Lemma host_run_sound fi : forall k s, host_run k fi s = true -> HostLine fi s.
+Proof.
+  induction k as [|k IH]; intros s E; cbn [host_run] in E; [discriminate E|].
+  destruct (has_next_token (set_state Running s)) as [[[|]|? ?|?| |] s1] eqn:Hh; try discriminate E.
+  - destruct (run_next_statement fi s) as [[[]|? ?|?| |] s'] eqn:Er; try discriminate E.
+    apply (HL_turn fi s s' Er). intros Hon. rewrite (on_line_b_complete s s' Hon) in E. exact (IH s' E).
+  - exact (HL_done fi s s1 Hh).
 Qed.
